@@ -64,9 +64,10 @@ def check(F, rep):
     ok = False
     if len(subs) == 1:
         a, b2 = subs[0][4]["a"], subs[0][4]["b"]
-        ca = [x for x in du.origin_calls(op_base(a)) if is_call_to(x[1], "tokio::io::read_buf::ReadBuf::remaining")]
-        cb2 = [x for x in du.origin_calls(op_base(b2)) if is_call_to(x[1], "tokio::io::read_buf::ReadBuf::remaining")]
-        ok = len(ca) == 1 and len(cb2) == 1 and f.dominates(ca[0][0], rb) and f.dominates(rb, cb2[0][0]) and ca[0][0] != cb2[0][0]
+        ca = def_call(f, op_base(a)) if op_base(a) is not None else None
+        cb2 = def_call(f, op_base(b2)) if op_base(b2) is not None else None
+        ok = ca is not None and cb2 is not None and is_call_to(ca[1], "tokio::io::read_buf::ReadBuf::remaining") and is_call_to(cb2[1], "tokio::io::read_buf::ReadBuf::remaining") \
+            and f.dominates(ca[0], rb) and f.dominates(rb, cb2[0]) and ca[0] != cb2[0]
     rep.ob("charging", ok, site(f, cb), "charged amount = remaining() before the read minus remaining() after it", skey(F, f, "measured-amount"))
     recv = ref_source_place(f, op_base(ct["args"][0]))
     rep.ob("charging", recv is not None and "bucket" in place_field_names(resolve_place(f, recv)) or any(fld == "bucket" for _, fld in du.field_reads(op_base(ct["args"][0]))), site(f, cb), "the bucket charged is this.bucket", skey(F, f, "own-bucket"))
